@@ -272,6 +272,14 @@ pub fn noise_decrypt(
     prologue: &[u8],
     handshake_message: &[u8],
 ) -> Result<NoiseDecryptMsg, NoiseError> {
+    // A Noise X message is an ephemeral key (32 bytes), an encrypted static
+    // key (48 bytes) and an encrypted payload (at least a 16 byte tag).
+    if handshake_message.len() < 96 || handshake_message.len() > 65535 {
+        return Err(NoiseError::Other(
+            "Invalid handshake message length.".to_string(),
+        ));
+    }
+
     let initiator = false;
     let mut handshake_state = noise::HandshakeState::init_x(
         initiator,
